@@ -33,6 +33,8 @@ pub fn configs_c02(tier: Tier) -> Vec<Box<dyn Config>> {
     let ubig = if tiny { 3 } else if sse2 { if q { 15 } else { 16 } } else { if q { 8 } else { 9 } };
     all_colls::<Z0>(&mut v, Plan::Zero, 1, tier);
     all_colls::<Z16>(&mut v, Plan::Zero, 1, tier);
+    // (the single element sits in the LAST bucket: its index is not 0)
+    all_colls::<Z16>(&mut v, Plan::Max, 1, tier);
     all_colls::<S3>(&mut v, Plan::Seq, u, tier);
     v.push(lay::<S6>(Coll::Map, Plan::Zero, u, tier));
     v.push(Box::new(ZstTables { tier }));
@@ -146,24 +148,60 @@ impl Drop for ZTok {
         ZLIVE.with(|c| c.set(c.get() - 1));
     }
 }
+/// zero-sized token types of the enumeration: alignment 1 and an over-aligned one (the bucket pseudo-pointer
+/// of a zero-sized element encodes the index in units of one, whatever the alignment)
+pub trait ZT: Clone + 'static {
+    const NAME: &'static str;
+    fn new() -> Self;
+}
+impl ZT for ZTok {
+    const NAME: &'static str = "align 1";
+    fn new() -> Self {
+        ZTok::new()
+    }
+}
+#[repr(align(16))]
+pub struct ZTokA(());
+impl ZT for ZTokA {
+    const NAME: &'static str = "align 16";
+    fn new() -> Self {
+        ZLIVE.with(|c| c.set(c.get() + 1));
+        ZTokA(())
+    }
+}
+impl Clone for ZTokA {
+    fn clone(&self) -> Self {
+        <ZTokA as ZT>::new()
+    }
+}
+impl Drop for ZTokA {
+    fn drop(&mut self) {
+        ZLIVE.with(|c| c.set(c.get() - 1));
+    }
+}
 fn zlive() -> i64 {
     ZLIVE.with(|c| c.get())
 }
 
 fn zst_case(n: usize, mask: u32, mode: u8) -> Result<(), String> {
-    type T = hashbrown::HashTable<ZTok, CheckAlloc>;
+    zst_case_of::<ZTok>(n, mask, mode)?;
+    zst_case_of::<ZTokA>(n, mask, mode)
+}
+
+fn zst_case_of<Z: ZT>(n: usize, mask: u32, mode: u8) -> Result<(), String> {
+    type T<Z> = hashbrown::HashTable<Z, CheckAlloc>;
     env::reset();
     ZLIVE.with(|c| c.set(0));
     // a zero-sized element carries no information, so the re-hashing closure can only be a
     // constant: all entries share one hash (they spread along its probe sequence)
     const H0: u64 = 5 | (0x15 << 57);
     let hashes: Vec<u64> = vec![H0; n];
-    let mut t = T::default();
+    let mut t = T::<Z>::default();
     for &h in &hashes {
-        t.insert_unique(h, ZTok::new(), |_| H0);
+        t.insert_unique(h, Z::new(), |_| H0);
     }
-    let what = || format!("HashTable<zero-sized> with {n} entries, removal pattern {mask:#b}, mode {mode}");
-    let chk = |t: &T, want: usize| -> Result<(), String> {
+    let what = || format!("HashTable<zero-sized, {}> with {n} entries, removal pattern {mask:#b}, mode {mode}", Z::NAME);
+    let chk = |t: &T<Z>, want: usize| -> Result<(), String> {
         let d = t.verif_dump();
         inv::check_structure_public(&d).map_err(|m| format!("{}: {m}", what()))?;
         if t.len() != want || t.iter().count() != want {
@@ -179,9 +217,9 @@ fn zst_case(n: usize, mask: u32, mode: u8) -> Result<(), String> {
             return Err(format!("{}: after clone() {} zero-sized elements are live, expected {}", what(), zlive(), 2 * n));
         }
         chk(&c, n)?;
-        let mut c2 = T::default();
+        let mut c2 = T::<Z>::default();
         for _ in 0..3 {
-            c2.insert_unique(H0, ZTok::new(), |_| H0);
+            c2.insert_unique(H0, Z::new(), |_| H0);
         }
         c2.clone_from(&t);
         if zlive() != 3 * n as i64 {
@@ -196,9 +234,9 @@ fn zst_case(n: usize, mask: u32, mode: u8) -> Result<(), String> {
     // iterators over zero-sized elements: exact lengths at every step, next / fold / for_each agree
     {
         use crate::mapprobes::{drive, Tail};
-        let z = |_: &ZTok| (0u8, 0u32, 0u32);
-        let zm = |_: &mut ZTok| (0u8, 0u32, 0u32);
-        let zo = |_: ZTok| (0u8, 0u32, 0u32);
+        let z = |_: &Z| (0u8, 0u32, 0u32);
+        let zm = |_: &mut Z| (0u8, 0u32, 0u32);
+        let zo = |_: Z| (0u8, 0u32, 0u32);
         let mut js = vec![0usize, 1, n / 2, n, n + 1];
         js.sort_unstable();
         js.dedup();
@@ -278,7 +316,7 @@ fn zst_case(n: usize, mask: u32, mode: u8) -> Result<(), String> {
     if zlive() != (n - removed) as i64 {
         return Err(format!("{}: {} zero-sized elements are live but the table holds {}", what(), zlive(), n - removed));
     }
-    t.insert_unique(H0, ZTok::new(), |_| H0);
+    t.insert_unique(H0, Z::new(), |_| H0);
     chk(&t, n - removed + 1)?;
     let k = t.drain().count();
     if k != n - removed + 1 {
